@@ -75,7 +75,7 @@ fn child() {
 
 fn gen_bytes(rng: &mut Rng, formula: bool) -> Vec<u8> {
     let f_ok = ["H2O", "C6H12O6", "C[13]2H4", "(CH2)3O", "Cl2", "NaCl", "C2(H3)2", "H", "CO2", "N2O4H[2]"];
-    let f_bad = ["", "Xx", "H2O)", "(H", "C[99]", "h2o", "H 2", "C[13", "H9999999999", "é", "C[1x]2", "()"];
+    let f_bad = ["", "Xx", "H2O)", "(H", "C[99]", "h2o", "H 2", "C[13", "H9999999999", "é", "C[1x]2", "()", "C[99]O", "CH3C[99]H3", "(H[7]O)2", "O[15](H2)2", "C[99]2O", "S[35]", "C[+13]"];
     let s_ok = ["C", "H", "O", "N", "Cl", "C[13]", "H[2]", "Cl[37]", "Na", "C[012]"];
     let s_bad = ["", "X", "C[", "C[99]", "c", "C[13]]", "é", "C[x]", "C[70000]", "C[0]"];
     let mut b: Vec<u8> = if formula { if rng.below(3) == 0 { rng.pick(&f_bad).as_bytes().to_vec() } else { rng.pick(&f_ok).as_bytes().to_vec() } }
@@ -118,8 +118,8 @@ fn main() {
                         8..=19 => { let b = gen_bytes(&mut rng, true); json!({"op": "parse", "bytes": b, "text": lossy(&b)}) }
                         20..=27 => json!({"op": "copy", "h": h}),
                         28..=39 => { let b = gen_bytes(&mut rng, false); json!({"op": "get", "h": h, "bytes": b, "text": lossy(&b)}) }
-                        40..=51 => { let b = gen_bytes(&mut rng, false); let k = rng.below(400) as i64 - 100; bound[h] += k.abs(); json!({"op": "set", "h": h, "bytes": b, "text": lossy(&b), "n": k}) }
-                        52..=61 => { let b = gen_bytes(&mut rng, false); let k = rng.below(400) as i64 - 100; bound[h] += k.abs(); json!({"op": "increment", "h": h, "bytes": b, "text": lossy(&b), "n": k}) }
+                        40..=51 => { let b = gen_bytes(&mut rng, false); let k = if rng.below(5) == 0 { 0 } else { rng.below(400) as i64 - 100 }; bound[h] += k.abs(); json!({"op": "set", "h": h, "bytes": b, "text": lossy(&b), "n": k}) }
+                        52..=61 => { let b = gen_bytes(&mut rng, false); let k = if rng.below(8) == 0 { 0 } else { rng.below(400) as i64 - 100 }; bound[h] += k.abs(); json!({"op": "increment", "h": h, "bytes": b, "text": lossy(&b), "n": k}) }
                         62..=71 => { let g = *rng.pick(&live); if g != h && bound[h] + bound[g] < 100_000_000 { bound[h] += bound[g]; json!({"op": "add", "h": h, "g": g}) } else { json!({"op": "mass", "h": h}) } }
                         72..=79 => { let g = *rng.pick(&live); if g != h && bound[h] + bound[g] < 100_000_000 { bound[h] += bound[g]; json!({"op": "subtract", "h": h, "g": g}) } else { json!({"op": "mass", "h": h}) } }
                         80..=87 => { let k = rng.below(9) as i64 - 3; if bound[h] * k.abs().max(1) < 100_000_000 { bound[h] *= k.abs().max(1); json!({"op": "scale", "h": h, "n": k}) } else { json!({"op": "mass", "h": h}) } }
